@@ -45,7 +45,7 @@ PInit(root, pc, file, kvroot, cn, vn, fn) ==
    (* re-entrant use: a function callback ("eval") parses a named text (fs entry of kind "text") *)
    (* into an auxiliary context while this parse is running; aux = <<root of that context>> or   *)
    (* <<>>; auxlog records the outcome of each nested parse; evq is a pending request            *)
-   aux |-> <<>>, auxlog |-> <<>>, evq |-> [on |-> FALSE, name |-> ""]]
+   aux |-> <<>>, auxlog |-> <<>>, evq |-> [on |-> FALSE, name |-> "", self |-> FALSE]]
 
 Top(ps)        == ps.stack[Len(ps.stack)]
 SetTop(ps, f)  == [ps EXCEPT !.stack[Len(ps.stack)] = f]
@@ -178,12 +178,18 @@ CallFunction(ps, f) ==
                         !.cblog = Append(@, [k |-> "func", o |-> o.name, v |-> "", vals |-> f.fargs])]
       f1  == ItemDone([f EXCEPT !.fargs = <<>>])
   IN IF ps.pc.failFunc = fn1 THEN FailD(ps1)
+     ELSE IF o.fn = "evalself"
+       THEN (* the callback parses the named text into the very context that is being parsed; only *)
+            (* modelled for a call at the top level of the context (possibly inside included files) *)
+            IF Len(f.fargs) # 1 \/ Len(ps.stack) # 1 \/ f.fargs[1] \notin DOMAIN ps.fs THEN Unspec(ps1)
+            ELSE IF ps.fs[f.fargs[1]].kind # "text" THEN Unspec(ps1)
+            ELSE [SetTop(ps1, f1) EXCEPT !.evq = [on |-> TRUE, name |-> f.fargs[1], self |-> TRUE]]
      ELSE IF o.fn = "eval"
        THEN (* the callback parses the named text into the auxiliary context and returns 0    *)
             (* whatever that parse returned; other uses are outside the model                *)
             IF Len(f.fargs) # 1 \/ ps.aux = <<>> \/ f.fargs[1] \notin DOMAIN ps.fs THEN Unspec(ps1)
             ELSE IF ps.fs[f.fargs[1]].kind # "text" THEN Unspec(ps1)
-            ELSE [SetTop(ps1, f1) EXCEPT !.evq = [on |-> TRUE, name |-> f.fargs[1]]]
+            ELSE [SetTop(ps1, f1) EXCEPT !.evq = [on |-> TRUE, name |-> f.fargs[1], self |-> FALSE]]
      ELSE SetTop(ps1, f1)
 
 (* ------------------------------------------------------------------ *)
@@ -345,7 +351,7 @@ PStep(ps, t) ==
 (* ------------------------------------------------------------------ *)
 MaxIncludeDepth == 10
 
-RECURSIVE PRun(_, _), PStepI(_, _), EnterEval(_, _)
+RECURSIVE PRun(_, _), PStepI(_, _), EnterEval(_, _), EnterEvalSelf(_, _)
 EnterInclude(p, name) ==
   IF Len(p.inc) >= MaxIncludeDepth THEN FailD(p)                       \* includes nested too deeply
   ELSE IF name \notin DOMAIN p.fs THEN FailD(p)                        \* missing / not found in the search path
@@ -369,12 +375,27 @@ EnterEval(p, name) ==
                     !.cn = q.cn, !.vn = q.vn, !.fn = q.fn,
                     !.cblog = @ \o q.cblog, !.freed = @ \o q.freed]
 
+(* the same into the context itself: the nested parse works on the root section (the only open frame), names the  *)
+(* context "[buf]" and restarts its line counter - the interrupted source's name comes back when an enclosing       *)
+(* include returns; positions reported in between are whatever the nested parse left (not fixed by the properties) *)
+EnterEvalSelf(p, name) ==
+  LET q0 == [PInit(p.stack[1].sec, p.pc, "buf", p.stack[1].kv, p.cn, p.vn, p.fn) EXCEPT !.fs = p.fs, !.inc = p.inc]
+      q  == PRun(q0, p.fs[name].toks)
+  IN IF q.status \notin {"ok", "fail"} THEN Unspec(p)
+     ELSE [p EXCEPT !.stack[1].sec = RootOf(q),
+                    !.auxlog = Append(@, [status |-> q.status, ndiag |-> Len(q.diags) + q.ndep]),
+                    !.cn = q.cn, !.vn = q.vn, !.fn = q.fn,
+                    !.cblog = @ \o q.cblog, !.freed = @ \o q.freed,
+                    !.file = "buf", !.line = q.line]
+
 PStepI(ps, t) ==
   LET p1 == PStep(ps, t)
   IN IF p1.status = "more" /\ p1.incq.on
        THEN EnterInclude([p1 EXCEPT !.incq = [on |-> FALSE, name |-> ""]], p1.incq.name)
+     ELSE IF p1.status = "more" /\ p1.evq.on /\ p1.evq.self
+       THEN EnterEvalSelf([p1 EXCEPT !.evq = [on |-> FALSE, name |-> "", self |-> FALSE]], p1.evq.name)
      ELSE IF p1.status = "more" /\ p1.evq.on
-       THEN EnterEval([p1 EXCEPT !.evq = [on |-> FALSE, name |-> ""]], p1.evq.name)
+       THEN EnterEval([p1 EXCEPT !.evq = [on |-> FALSE, name |-> "", self |-> FALSE]], p1.evq.name)
        ELSE p1
 
 PRun(ps, toks) == IF toks = <<>> THEN ps ELSE PRun(PStepI(ps, Head(toks)), Tail(toks))
